@@ -19,15 +19,15 @@ def _rand(c):
 BUS_PROPS = ('C01', 'C02', 'C03', 'C04', 'C05', 'C06', 'C08', 'C09', 'C11', 'C13', 'C14', 'C15')
 
 # serial buses, no forwarding: the "clean" class for most ordering/completion oracles
-fam(ScenarioFamily('serial', BUS_PROPS, _rand(gen.cfg(p_idle=0.08)), 800, 8000))
+fam(ScenarioFamily('serial', BUS_PROPS, _rand(gen.cfg(p_idle=0.08, modes=['fire', 'await', 'await', 'later', 'await_result'])), 800, 8000))
 # one serial bus: no third party can hold an awaited child, so C04 is strict here
 fam(ScenarioFamily('single', BUS_PROPS, _rand(gen.cfg(nb=(1, 1), p_idle=0.08, p_redisp=0.04, p_actor_redisp=0.08, p_explicit_parent=0.05)), 600, 6000))
 # deeper trees, more buses, long-running fire-and-forget descendants
 fam(ScenarioFamily('deep', BUS_PROPS, _rand(gen.cfg(nb=(2, 4), levels=6, prog_len=(1, 3), handlers_per=(1, 1, 2), p_wild=0.15, p_idle=0.05)), 400, 4000))
 # parallel handlers
-fam(ScenarioFamily('parallel', BUS_PROPS, _rand(gen.cfg(p_par=0.6, p_idle=0.05)), 400, 4000))
+fam(ScenarioFamily('parallel', BUS_PROPS, _rand(gen.cfg(p_par=0.6, p_idle=0.05, modes=['fire', 'await', 'await', 'later', 'await_result'])), 400, 4000))
 # forwarding between buses (one edge per (src,dst))
-fam(ScenarioFamily('forward', BUS_PROPS + ('C07',), _rand(gen.cfg(nb=(2, 4), p_fwd=1.0, p_idle=0.05)), 600, 6000))
+fam(ScenarioFamily('forward', BUS_PROPS + ('C07',), _rand(gen.cfg(nb=(2, 4), p_fwd=1.0, p_idle=0.05, p_redisp=0.03, p_actor_redisp=0.06)), 600, 6000))
 # forwarding combined with small history limits (loop prevention must not depend on what the history still holds)
 fam(ScenarioFamily('forward_history', BUS_PROPS + ('C07',), _rand(gen.cfg(nb=(2, 4), p_fwd=1.0, hist=[1, 2, 3, 5, 10], actor_ops=(3, 9), p_idle=0.12, p_age=0.2)), 400, 4000))
 # small history limits
